@@ -32,7 +32,7 @@ def schema_for(c):
     lines = ['schema { query: Query }', 'type Query { o0: O0 o1: O1 i0: I0 u0: U0 }', 'interface I0 { x: Int }']
     for o in range(2):
         lines.append(f'type O{o}{" implements I0" if impl[o] else ""} {{ x: Int }}')
-    members = [f'O{o}' for o in range(2) if memb[o]] or ['D']
+    members = ([f'O{o}' for o in range(2) if memb[o]] or ['D']) + (['U0'] if c.get('self_union') else [])
     lines.append('type D { x: Int }')
     lines.append('union U0 = ' + ' | '.join(members))
     return '\n'.join(lines) + '\n'
